@@ -141,6 +141,7 @@ type c11RunRec struct {
 	ptrs    []*C11State
 	nodes   map[string]*c11NodeObs
 	rerun   map[string]bool
+	loops   map[string]int // resume family: evaluations of the cycle's branch, by the path of its node
 	eager   *c11EagerCtl
 	late    *c11LateCtl
 	// non-pointer state types: the objects the generator made, one "somebody is inside" flag per
@@ -586,6 +587,7 @@ func c11BuildT[S c11StateLike](l *c11Layout, gi int, ctrs int, mk func(id, ctrs 
 			return nil, fmt.Errorf("add node %s: %w", f.Path, err)
 		}
 	}
+	loop := spec.LoopN > 0 && spec.LoopFrom < len(spec.Nodes) && spec.LoopTo <= spec.LoopFrom
 	for ni := range spec.Nodes {
 		n := &spec.Nodes[ni]
 		if len(n.Preds) == 0 {
@@ -594,13 +596,45 @@ func c11BuildT[S c11StateLike](l *c11Layout, gi int, ctrs int, mk func(id, ctrs 
 			}
 		}
 		for _, p := range n.Preds {
+			if loop && p == spec.LoopFrom {
+				continue // the way on is a target of the cycle's branch
+			}
 			if err := g.AddEdge(spec.Nodes[p].Key, n.Key); err != nil {
 				return nil, err
 			}
 		}
 	}
-	if err := g.AddEdge(last, compose.END); err != nil {
-		return nil, err
+	if loop {
+		// a Pregel cycle: the branch counts its own evaluations (one per completion of the node)
+		from, to, fwd := spec.Nodes[spec.LoopFrom].Key, spec.Nodes[spec.LoopTo].Key, compose.END
+		if spec.LoopFrom+1 < len(spec.Nodes) {
+			fwd = spec.Nodes[spec.LoopFrom+1].Key
+		}
+		lpath, times := l.Nodes[l.GNodes[gi][spec.LoopFrom]].Path, spec.LoopN
+		br := compose.NewGraphBranch(func(ctx context.Context, in string) (string, error) {
+			rr := c11Rec(ctx)
+			rr.mu.Lock()
+			if rr.loops == nil {
+				rr.loops = map[string]int{}
+			}
+			k := rr.loops[lpath]
+			rr.loops[lpath] = k + 1
+			rr.mu.Unlock()
+			if k < times {
+				return to, nil
+			}
+			return fwd, nil
+		}, map[string]bool{to: true, fwd: true})
+		if err := g.AddBranch(from, br); err != nil {
+			return nil, err
+		}
+		// (the default step limit of a Pregel run is its node count + 10)
+		b.opts = append(b.opts, compose.WithMaxRunSteps((len(spec.Nodes)+2)*(spec.LoopN+2)+20))
+	}
+	if !(loop && spec.LoopFrom == len(spec.Nodes)-1) {
+		if err := g.AddEdge(last, compose.END); err != nil {
+			return nil, err
+		}
 	}
 	if spec.Mode == "dag" {
 		b.opts = append(b.opts, compose.WithNodeTriggerMode(compose.AllPredecessor))
